@@ -49,16 +49,28 @@ func Unquote(types ...string) Option {
 }
 
 func unquote(s string) (string, error) {
+	if len(s) < 2 {
+		return "", strconv.ErrSyntax
+	}
 	quote := s[0]
 	s = s[1 : len(s)-1]
+	if quote == '`' {
+		// Raw strings have no escape sequences.
+		return s, nil
+	}
 	out := ""
 	for s != "" {
-		value, _, tail, err := strconv.UnquoteChar(s, quote)
+		value, multibyte, tail, err := strconv.UnquoteChar(s, quote)
 		if err != nil {
 			return "", err
 		}
 		s = tail
-		out += string(value)
+		if multibyte {
+			out += string(value)
+		} else {
+			// A single byte, eg. "\xff", which is not necessarily valid UTF-8.
+			out += string([]byte{byte(value)})
+		}
 	}
 	return out, nil
 }
